@@ -11,7 +11,9 @@ import os, sys, base64, socket, threading, time, subprocess, shutil, contextlib,
 
 from vlib import paths
 
-RUNDIR = os.path.join(paths.RUN, 'c15')
+RUNDIR = os.path.join(paths.RUN, 'c15', 'p%d' % os.getpid())      # per process: concurrent checks do not collide
+import atexit
+atexit.register(lambda: shutil.rmtree(RUNDIR, ignore_errors=True))
 HOST, PORT = 'h.example', 830
 HELLO_SRV = (b'<?xml version="1.0" encoding="UTF-8"?><hello xmlns="urn:ietf:params:xml:ns:netconf:base:1.0"><capabilities>'
              b'<capability>urn:ietf:params:netconf:base:1.0</capability></capabilities><session-id>7</session-id></hello>]]>]]>')
@@ -57,7 +59,7 @@ def home_for(kh, defaults):
     pool = Pool.get()
     key = (None if kh is None else tuple(tuple(x) for x in kh), tuple(defaults))
     if key in _homes: return _homes[key]
-    d = os.path.join(RUNDIR, 'home-%d-%d' % (os.getpid(), len(_homes)))
+    d = os.path.join(RUNDIR, 'home-%d' % len(_homes))
     shutil.rmtree(d, ignore_errors=True); _mkdir(os.path.join(d, '.ssh'))
     if kh is not None:
         with open(os.path.join(d, '.ssh', 'known_hosts'), 'w') as f:
@@ -369,7 +371,7 @@ def _openssl(*args, cwd):
 def make_pki():
     """Two CAs, server certificates (good: SAN IP:127.0.0.1 + DNS:localhost signed by CA1; mismatch: SAN DNS:other.example
     signed by CA1; wrongca: good names signed by CA2; selfsigned), and a client certificate — generated now by the openssl CLI."""
-    d = os.path.join(RUNDIR, 'pki-%d' % os.getpid())
+    d = os.path.join(RUNDIR, 'pki')
     shutil.rmtree(d, ignore_errors=True); _mkdir(d)
     for ca in ('ca1', 'ca2'):
         _openssl('req', '-x509', '-newkey', 'rsa:2048', '-nodes', '-keyout', ca + '.key', '-out', ca + '.pem', '-days', '2',
